@@ -10,6 +10,11 @@ from .c01 import _qd
 TOL = 1e-11
 
 
+def ts(obj):
+    """natural scale of an MPS/MPO: product of its tensor norms (rounding errors of contractions are relative to it)"""
+    return float(np.prod([max(float(np.linalg.norm(np.asarray(a, dtype=complex))), 1e-300) for a in obj.A]))
+
+
 def _rel(ctx, mon, got, want, scale, detail):
     ctx.close(mon, float(np.linalg.norm(np.asarray(got) - np.asarray(want))), TOL * max(scale, 1e-300), '', detail)
 
@@ -18,8 +23,8 @@ def _pair_mps(rng, L, d, layout):
     qd = _qd(rng, d, layout)
     p0 = str(rng.choice(['one', 'random', 'max', 'over']))
     p1 = str(rng.choice(['one', 'random', 'max', 'over']))
-    k0 = str(rng.choice(['complex', 'real']))
-    k1 = str(rng.choice(['complex', 'real']))
+    k0 = str(rng.choice(['complex', 'real', 'int']))
+    k1 = str(rng.choice(['complex', 'real', 'int']))
     q0 = int(rng.integers(-1, 2))
     a = gen.rand_mps(rng, qd, L, p0, Dmax=4, kind=k0, q0=q0)
     b = gen.rand_mps(rng, qd, L, p1, Dmax=4, kind=k1, q0=q0, qL=int(a.qD[-1][0]))
@@ -40,15 +45,15 @@ def mps_sum(ctx, idx, rng):
     inv = refs.mps_invariant(r)
     ctx.ok('mps-sum.block-sparse', inv is None, str(inv), detail)
     if inv is None:
-        _rel(ctx, 'mps-sum.dense', refs.dense_state(r.A), va - vb if sub else va + vb, np.linalg.norm(va) + np.linalg.norm(vb), detail)
-        _rel(ctx, 'as_vector.dense', r.as_vector(), refs.dense_state(r.A), np.linalg.norm(va) + np.linalg.norm(vb), detail)
+        _rel(ctx, 'mps-sum.dense', refs.dense_state(r.A), va - vb if sub else va + vb, ts(a) + ts(b), detail)
+        _rel(ctx, 'as_vector.dense', r.as_vector(), refs.dense_state(r.A), ts(a) + ts(b), detail)
         if L > 1:
             ctx.ok('mps-sum.bond-dims-add', r.bond_dims[1:-1] == [x + y for x, y in zip(a.bond_dims[1:-1], b.bond_dims[1:-1])], 'inner bond dims must add', detail)
     # direct call with a general alpha
     alpha = complex(rng.normal(), rng.normal()) if rng.random() < 0.5 else float(rng.choice([-1, 0.5, 2]))
     import pytenet.mps as pm
     r2 = pm.add_mps(a, b, alpha=alpha)
-    _rel(ctx, 'add_mps.alpha', refs.dense_state(r2.A), va + alpha * vb, np.linalg.norm(va) + abs(alpha) * np.linalg.norm(vb), detail)
+    _rel(ctx, 'add_mps.alpha', refs.dense_state(r2.A), va + alpha * vb, ts(a) + abs(alpha) * ts(b), detail)
 
 
 def mpo_arith(ctx, idx, rng):
@@ -60,8 +65,8 @@ def mpo_arith(ctx, idx, rng):
     qd = _qd(rng, d, layout)
     diffs = np.unique(np.subtract.outer(qd, qd))
     b0 = int(rng.choice(diffs))
-    k0 = str(rng.choice(['complex', 'real']))
-    k1 = str(rng.choice(['complex', 'real']))
+    k0 = str(rng.choice(['complex', 'real', 'int']))
+    k1 = str(rng.choice(['complex', 'real', 'int']))
     A = gen.rand_mpo(rng, qd, L, Dmax=3, kind=k0)
     B = gen.rand_mpo(rng, qd, L, Dmax=3, kind=k1, boundary=(int(A.qD[0][0]), int(A.qD[-1][0])))
     # B's trailing charge must be reachable: re-mask (rand_mpo masks with its own qD, so B is consistent by construction)
@@ -70,7 +75,7 @@ def mpo_arith(ctx, idx, rng):
     op = ('add', 'sub', 'matmul', 'chain')[idx % 4]
     ctx.case(('mpo', op, f'L{L}', f'd{d}', layout, k0, k1), sample={'qd': qd, 'qDA': A.qD, 'qDB': B.qD, 'op': op})
     detail = {'qd': qd, 'A': {'qD': A.qD, 'A': A.A}, 'B': {'qD': B.qD, 'A': B.A}, 'C': {'qD': C.qD, 'A': C.A}, 'op': op}
-    sc = np.linalg.norm(mA) + np.linalg.norm(mB)
+    sc = ts(A) + ts(B)
     with monitor.write_protected(A, B, C):
         if op == 'add':
             r = A + B
@@ -81,11 +86,11 @@ def mpo_arith(ctx, idx, rng):
         elif op == 'matmul':
             r = A @ C
             want = mA @ mC
-            sc = np.linalg.norm(mA, 2) * np.linalg.norm(mC)
+            sc = ts(A) * ts(C)
         else:
             r = ((A + B) @ C) - (A @ C)
             want = mB @ mC
-            sc = (np.linalg.norm(mA) + np.linalg.norm(mB)) * np.linalg.norm(mC)
+            sc = (ts(A) + ts(B)) * ts(C)
     inv = refs.mpo_invariant(r)
     ctx.ok(f'mpo-{op}.block-sparse', inv is None, str(inv), detail)
     if inv is None:
@@ -127,7 +132,7 @@ def apply_case(ctx, idx, rng):
         chain = ptn.apply_operator(H, a - b)
     inv = refs.mps_invariant(r)
     ctx.ok('apply.block-sparse', inv is None, str(inv), detail)
-    sc = np.linalg.norm(mH, 2) * (np.linalg.norm(va) + np.linalg.norm(vb))
+    sc = ts(H) * (ts(a) + ts(b))
     if inv is None:
         _rel(ctx, 'apply.dense', refs.dense_state(r.A), mH @ va, sc, detail)
         ctx.ok('apply.bond-dims-multiply', r.bond_dims == [x * y for x, y in zip(H.bond_dims, a.bond_dims)], 'bond dims must multiply', detail)
